@@ -612,6 +612,9 @@ class C09(BaseCheck):
                                                           'accepted behind another grid' % str(alone['exc'])[:80],
                                                    'fault': d['faults'], 'returned': healthy.get('repr')})
                     stats['probe.later_grid_checked_alone'] = stats.get('probe.later_grid_checked_alone', 0) + 1
+                elif not bad and d.get('alone') and oc == 'raise':
+                    # refused behind another grid as well: the relation holds without asking for the stand-alone verdict
+                    stats['probe.later_grid_respelled_refused'] = stats.get('probe.later_grid_respelled_refused', 0) + 1
                 if bad:
                     viol = {'clause': bad[0], 'detail': dict(bad[1], delivery=di, text=text, faults=d['faults'], base=base)}
                     break
